@@ -1106,6 +1106,128 @@ func runCase(c *caseIn) {
 		}
 		R.Seen("message_kinds", m.kind)
 	}
+
+	// 5. the same Wallet value sends again. Every message must carry what was asked for *that* send: for
+	// Send/SendV2 the seqno of the account state the chain hands out (it has not moved), for RawSendV2 the
+	// seqno passed in - whatever this Wallet sent before.
+	if (c.path == "sendv2" || c.path == "raw") && c.count <= 16 {
+		repeatSends(c, &wal, ch, pub, wantSeq)
+	}
+}
+
+// repeatSends sends twice more through the wallet that has already sent once
+// and checks every captured message against its own request.
+func repeatSends(c *caseIn, wal *twallet.Wallet, ch *chain, pub ed25519.PublicKey, stateSeq uint32) {
+	s := c.spec
+	for rep := 1; rep <= 2; rep++ {
+		w := witness(c)
+		w["send_number_on_this_wallet"] = rep + 1
+		wantSeq := stateSeq
+		var err error
+		var t0, t1 time.Time
+		var p *mon.Panic
+		before := len(ch.sent)
+		if c.path == "sendv2" {
+			snd := make([]twallet.Sendable, len(c.msgs))
+			for i := range c.msgs {
+				if snd[i], err = c.msgs[i].sendable(); err != nil {
+					R.HarnessError("building sendable: %v", err)
+					return
+				}
+			}
+			t0 = time.Now()
+			p = mon.Guard(func() { _, err = wal.SendV2(context.Background(), 0, snd...) })
+			t1 = time.Now()
+		} else {
+			// an explicit seqno that is not above the one used before: the same, then a lower one
+			wantSeq = c.seqno - uint32(rep-1)
+			raws := make([]twallet.RawMessage, len(c.msgs))
+			for i := range c.msgs {
+				if raws[i], err = c.msgs[i].raw(); err != nil {
+					R.HarnessError("building raw message: %v", err)
+					return
+				}
+			}
+			p = mon.Guard(func() {
+				_, err = wal.RawSendV2(context.Background(), wantSeq, time.Unix(int64(c.validUntil), 0), raws, nil, 0)
+			})
+		}
+		w["want_seqno"] = wantSeq
+		if p != nil {
+			w["panic"], w["stack"] = p.Value, mon.Trunc(p.Stack, 1500)
+			R.Violation("panic@"+p.Site+"/build/"+c.path+"/"+s.name+"/repeated-send", w)
+			return
+		}
+		if err != nil || len(ch.sent) != before+1 {
+			w["err"], w["captured"] = fmt.Sprint(err), len(ch.sent)-before
+			R.Violation("error@build/"+c.path+"/"+s.name+"/repeated-send", w)
+			return
+		}
+		payload := ch.sent[len(ch.sent)-1]
+		w["payload"] = mon.HexTrunc(payload, 3000)
+		roots, _, _, rerr := rboc.Read(payload)
+		if rerr != nil || len(roots) != 1 {
+			w["err"] = fmt.Sprint(rerr)
+			R.Violation("invalid-boc@payload/"+s.name+"/repeated-send", w)
+			return
+		}
+		ext, rerr := rwallet.ParseExtIn(roots[0])
+		if rerr != nil {
+			w["err"] = rerr.Error()
+			R.Violation("not-an-external-message@payload/"+s.name+"/repeated-send", w)
+			return
+		}
+		if !rwallet.Verify(s.r, ext.Body, pub) {
+			R.Violation("bad-signature@reference-verifier/"+c.path+"/"+s.name+"/repeated-send", w)
+			return
+		}
+		req, derr := rwallet.Decode(s.r, ext.Body)
+		if derr != nil {
+			w["err"] = derr.Error()
+			R.Violation("undecodable-body@reference/"+s.name+"/repeated-send", w)
+			return
+		}
+		R.Eval(fmt.Sprintf("repeat/%s/%s/%d", s.name, c.path, rep))
+		R.Count("repeated_sends_compared", 1)
+		vu := req.ValidUntil
+		if s.r == rwallet.HighloadV2R2 {
+			vu = uint32(req.QueryID >> 32)
+		} else if req.Seqno != wantSeq {
+			w["got_seqno"] = req.Seqno
+			R.Violation("seqno-mismatch/"+c.path+"/"+s.name+"/repeated-send", w)
+			return
+		}
+		if c.path == "sendv2" {
+			lo, hi := t0.Add(c.lifetime).Unix()-1, t1.Add(c.lifetime).Unix()+1
+			if int64(vu) < lo || int64(vu) > hi {
+				w["got_valid_until"] = vu
+				R.Violation("expiry-mismatch/"+c.path+"/"+s.name+"/repeated-send", w)
+				return
+			}
+		} else if vu != c.validUntil {
+			w["got_valid_until"] = vu
+			R.Violation("expiry-mismatch/"+c.path+"/"+s.name+"/repeated-send", w)
+			return
+		}
+		if len(req.Msgs) != c.count {
+			w["reference_count"] = len(req.Msgs)
+			R.Violation("message-count-mismatch/"+s.name+"/repeated-send", w)
+			return
+		}
+		for i := range c.msgs {
+			m := &c.msgs[i]
+			if req.Msgs[i].Mode != m.mode {
+				w["index"], w["got_mode"], w["want_mode"] = i, req.Msgs[i].Mode, m.mode
+				R.Violation("mode-mismatch/"+s.name+"/repeated-send", w)
+				return
+			}
+			if why := m.matches(req.Msgs[i].Msg); why != "" {
+				w["index"], w["why"], w["kind"] = i, why, m.kind
+				R.Violation("message-mismatch@"+m.kind+"/"+why+"/repeated-send", w)
+				return
+			}
+		}
+	}
 }
 
 func main() {
@@ -1114,7 +1236,7 @@ func main() {
 		tier = os.Args[1]
 	}
 	R = mon.Start("C14", tier)
-	R.Rule = "each case builds one signed message through RawSendV2 / SendV2 / CreateMessageBody (also with the expiry left to the wallet's message lifetime; V5R1 also through the exported CreateSignedMsgBodyCell with 2-3 extended actions, i.e. a signed part spanning two root references) against a scripted chain; requested messages: raw cells, Message, SimpleTransfer (comments, extra currencies), ContractDeploy (destination = hash of the StateInit of code and data); counts 0..max, max+1 and far above (256, 257, 300, 512); oracle = reference verifier + tongo's verifier under the wallet key, 8 foreign keys, every bit of the body root flipped and 64 bits in referenced cells (reference verifier; a sample through tongo), reference decoder + tongo decoders + ExtractRawMessages against the request (ids, seqno, expiry, modes, order, content via the reference internal-message decoder), count limit; non-trivial = a message that was built and verified; distinct = distinct body hashes (plus per-version classes for bit flips and over-limit refusals)"
+	R.Rule = "each case builds one signed message through RawSendV2 / SendV2 / CreateMessageBody (also with the expiry left to the wallet's message lifetime; V5R1 also through the exported CreateSignedMsgBodyCell with 2-3 extended actions, i.e. a signed part spanning two root references) against a scripted chain; requested messages: raw cells, Message, SimpleTransfer (comments, extra currencies), ContractDeploy (destination = hash of the StateInit of code and data); counts 0..max, max+1 and far above (256, 257, 300, 512); every wallet that has sent through SendV2 / RawSendV2 sends twice more (same account state; same and lower explicit seqno) and each message is compared with its own request (reference verifier + decoder); oracle = reference verifier + tongo's verifier under the wallet key, 8 foreign keys, every bit of the body root flipped and 64 bits in referenced cells (reference verifier; a sample through tongo), reference decoder + tongo decoders + ExtractRawMessages against the request (ids, seqno, expiry, modes, order, content via the reference internal-message decoder), count limit; non-trivial = a message that was built and verified; distinct = distinct body hashes (plus per-version classes for bit flips and over-limit refusals)"
 	R.Assume("reference wallet model harness/ref/wallet: signature placement and body layouts written from the contract sources; validated at start-up against captured network messages (2 signatures, 8 bodies, 10 inner messages) and real address vectors")
 	R.Assume("on-chain acceptance is not decided (no TVM); v5 action lists are compared in list order (tongo puts the first requested message in the outermost OutList cell; TVM performs the innermost first)")
 	R.Assume("wallet.VerifySignature has no V5Beta branch; for V5Beta the exported MessageV5VerifySignature is taken as tongo's verifier")
